@@ -177,7 +177,18 @@ Theorem pieces : forall (F : fops) (dbg : bool) (c : cfg) (fuel : nat) (program 
   run F fuel dbg c program answers = (reqs, FComplete ps vr a b) -> result_shape mask ps vr.
 Proof. exact run_pieces. Qed.
 
-Definition ex_cfg (maxit : option N) : cfg := mkCfg (mkEnc 4 false 4 false) None maxit None None None None.
+(* The specification oracle of stream c07.spec is the NORMALISED machine: the model evaluator with c_canon = Some bits,
+   which reduces every generic value modulo 2^bits when it is pushed.  For every program, configuration and answer list
+   every state it hands back to the consumer has a stack whose generic values are canonical (gcanon bits v :=
+   vty v = TGeneric -> vbits v < 2^bits) — so it is the DWARF stack machine over Z/2^bits: all its Value operations,
+   the shift counts included, fall under value_ops.  gimli is compared with it modulo 2^bits (class n of c07.spec). *)
+Theorem normalised_machine_canonical : forall (F : fops) (dbg : bool) (c : cfg) (mask bits : N), c_canon c = Some bits ->
+  (forall fuel program o s, evaluate F fuel dbg c mask program = Ok (o, s) -> Forall (gcanon bits) (s_stack s)) /\
+  (forall fuel w a s o s', Forall (gcanon bits) (s_stack s) -> resume F fuel dbg c mask w a s = Ok (o, s') ->
+     Forall (gcanon bits) (s_stack s')).
+Proof. exact normalised_machine_lemma. Qed.
+
+Definition ex_cfg (maxit : option N) : cfg := mkCfg (mkEnc 4 false 4 false) None maxit None None None None None.
 Example iteration_ex_loop :     (* `DW_OP_skip -3` jumps to itself: the limit error, not a hang *)
   run no_fops 7 true (ex_cfg (Some 6)) [x2f; xfd; xff] [] = ([], FErr ETooManyIterations).
 Proof. vm_compute. reflexivity. Qed.
@@ -202,6 +213,13 @@ Proof. vm_compute. reflexivity. Qed.
 Example pieces_ex_unterminated :   (* a piece followed by an unterminated computation: InvalidPiece *)
   run no_fops 20 true (ex_cfg None) [x50; x93; x04; x35] [] = ([], FErr EInvalidPiece) /\
   run no_fops 20 true (ex_cfg None) [x50; x35] [] = ([], FErr EInvalidExpressionTerminator).
+Proof. split; vm_compute; reflexivity. Qed.
+Example normalised_ex_shift :   (* lit1; const4u 0x80000001; lit1; shl; shl on a 4-byte target: gimli 0, stack machine 4 *)
+  run no_fops 9 true (ex_cfg (Some 8)) [x31; x0c; x01; x00; x00; x80; x31; x24; x24] [] =
+    ([], FComplete [mkPiece None None (LAddress 0)] (Some (mkV TGeneric 0)) 5 5) /\
+  run no_fops 9 true (mkCfg (mkEnc 4 false 4 false) None (Some 8) None None None None (Some 32))
+      [x31; x0c; x01; x00; x00; x80; x31; x24; x24] [] =
+    ([], FComplete [mkPiece None None (LAddress 4)] (Some (mkV TGeneric 4)) 5 5).
 Proof. split; vm_compute; reflexivity. Qed.
 Example iteration_counter_u32 :   (* why iteration_bound needs n < u32::MAX: `iteration += 1` at u32::MAX *)
   chk_add 32 true 4294967295 1 = Panic /\ chk_add 32 false 4294967295 1 = Ok 0.
